@@ -153,7 +153,7 @@ def run(ck):
     import qmi.core.context, qmi.core.rpc, qmi.core.pubsub, qmi.core.messaging, qmi.core.task  # noqa  (before fork)
     sims = c07.run_sims(ck, "c08")
     c07.check_sims(ck, sims, "C08", KEYS)
-    nsched = 900 if ck.tier == "quick" else 9000
+    nsched = 600 if ck.tier == "quick" else 9000
     jobs = []
     cdir = os.path.join(os.path.dirname(os.path.dirname(os.path.abspath(__file__))), "corpus", "C08")
     if os.path.isdir(cdir):
@@ -178,7 +178,8 @@ def run(ck):
             ck.report("oracle:c08:threads:%s:%s" % (args[1], bad[0]), "C08 fails on real contexts (%s): %s" % (args[1], bad[1]),
                       {"kind": "block", "seed": args[0], "how": args[1], "lines": args[2], "schedule": res.get("choices"),
                        "obs": res.get("obs")})
-    c07.run_recreate(ck, "C08", 160 if ck.tier == "quick" else 2000)
+    c07.run_recreate(ck, "C08", 120 if ck.tier == "quick" else 2000)
+    c07.run_bidir(ck, "C08", 96 if ck.tier == "quick" else 1800)
     return ck.finish("exhaustive op sequences (12-letter alphabet, 3 prefixes) + seeded random histories on 1-3 contexts, probes at "
                      "quiescent points + random schedules of a blocked subscriber with the peer vanishing; non-trivial = at least "
                      "one message delivered; distinct by label sequence")
@@ -188,6 +189,8 @@ def replay(rep):
     c = rep["case"]
     if c.get("kind") == "recreate":
         return c07.replay_recreate(c)
+    if c.get("kind") == "bidir":
+        return c07.replay_bidir(c)
     if c.get("kind") == "block":
         import qmi.core.context, qmi.core.rpc, qmi.core.pubsub, qmi.core.messaging, qmi.core.task  # noqa
         res = dsched.run_forked([(scenario_block, (c["seed"], c["how"], bool(c.get("lines"))),
